@@ -3,7 +3,7 @@ line protocol (PROTOCOL.md), canonical value parsing, byte writer with span trac
 evidence and replay files, known findings."""
 import os, sys, json, subprocess, time, hashlib, random, re, concurrent.futures
 
-VERIF = '/verif'
+VERIF = os.environ.get('VERIF_ROOT') or os.path.dirname(os.path.dirname(os.path.abspath(__file__)))   # normally /verif
 REPO = '/repo'
 CARGO_TARGET = VERIF + '/.build/cargo'
 LEAN_DIR = VERIF + '/lean'
